@@ -50,6 +50,11 @@ func (c *EventCache) Add(event *Event) (added bool) {
 	c.mu.Lock()
 	defer c.mu.Unlock()
 
+	// ephemeral events are never stored (they have no event key)
+	if event.EventType() == EventTypeEphemeral {
+		return true
+	}
+
 	eventKey := c.getEventKey(event)
 
 	if c.isDeleted(eventKey, event.Pubkey) {
